@@ -11,6 +11,7 @@ import (
 	"bytes"
 	"context"
 	"fmt"
+	"github.com/refraction-networking/conjure/pkg/zzverif/vtime"
 	"io"
 	"net"
 	"strings"
@@ -74,6 +75,9 @@ func wrapClient(r regSpec, conn net.Conn) (net.Conn, error) {
 	}
 	return nil, fmt.Errorf("no client")
 }
+
+// c04Pause: quiet period between the client's first exchange and its second one (0 = none)
+var c04Pause time.Duration
 
 // c04Late: per manager, a registration that still has to be validated after a first, refused round of connections
 var c04Late = map[*cj.RegistrationManager]*c03LateReg{}
@@ -155,9 +159,14 @@ func runC04(rm *cj.RegistrationManager, anns *[]cj.VerifDetectorMsg, phantom net
 						return
 					}
 				}
-				for _, chunk := range [][]byte{early, later} {
+				for ci, chunk := range [][]byte{early, later} {
 					if len(chunk) == 0 {
 						continue
+					}
+					if ci == 1 && c04Pause > 0 {
+						// an interactive session: after the first exchange both sides are quiet for a while (less than the
+						// relay's stall timeout), then the client speaks again
+						vtime.Sleep(c04Pause)
 					}
 					if _, err := c.Write(chunk); err != nil {
 						res.clientErr = "write: " + err.Error()
@@ -328,6 +337,18 @@ func verifC04(a *vh.Args) {
 					}
 					if prior != "" {
 						id += ";after=" + prior
+					}
+					c04Pause = 0
+					if E > 0 && greeting == nil {
+						switch ci % 9 {
+						case 4:
+							c04Pause = 40 * time.Second
+						case 7:
+							c04Pause = 100 * time.Second
+						}
+					}
+					if c04Pause > 0 {
+						id += fmt.Sprintf(";quiet=%v", c04Pause)
 					}
 					if only != "" && id != only {
 						continue // replay: run exactly the recorded case
